@@ -51,3 +51,12 @@
       (or (and (not (= (seccomp.JumpIf.trueLabel (jrec J k)) l)) (not (hasL L (seccomp.JumpIf.trueLabel (jrec J k)))))
           (and (not (= (seccomp.JumpIf.falseLabel (jrec J k)) l)) (not (hasL L (seccomp.JumpIf.falseLabel (jrec J k)))))))
       :pattern ((select (Slice<seccomp.JumpIf>.arr J) k))))))
+; a set of labels as a lemma parameter type
+(define-sort LabelSet () (Array Int Bool))
+; every label the jump at the end of the program (if there is one) refers to is below m; stated over the parts
+; (instructions, jumps) so that it is visibly independent of label placement and of the label counter
+(define-fun endBelow ((I Slice<I.bpf.Instruction>) (J Slice<seccomp.JumpIf>) (m Int)) Bool
+  (forall ((k Int)) (! (=> (and (<= 0 k) (< k (Slice<seccomp.JumpIf>.len J))
+                                (>= (seccomp.JumpIf.index (jrec J k)) (- (plen I) 1)))
+      (and (< (seccomp.JumpIf.trueLabel (jrec J k)) m) (< (seccomp.JumpIf.falseLabel (jrec J k)) m)))
+      :pattern ((select (Slice<seccomp.JumpIf>.arr J) k)))))
